@@ -687,4 +687,54 @@ def AsyncCall.valid (r : RegionId) : AsyncCall → Bool
   | .op o => o.valid r
   | .listen script => scriptWF script
 
+/-! ## 16-bit wire counters in the scripts give events that carry them -/
+
+def AsyncCall.allView (P : RxView → Bool) : AsyncCall → Bool
+  | .op o => o.allView P
+  | .listen script => script.all (ScriptItem.allView P)
+
+theorem listenEvents_evOk (m : MacState) (mp : Nat) (cs : List (RxView × Int)) (h : cs.all (fun c => viewOk c.1) = true) :
+    ∀ e ∈ listenEvents m mp cs, evOk e = true := by
+  induction cs with
+  | nil => intro e he; cases he
+  | cons c rest ih =>
+    obtain ⟨v, snr⟩ := c
+    simp only [List.all_cons, Bool.and_eq_true] at h
+    intro e he
+    simp only [listenEvents, List.mem_cons] at he
+    rcases he with rfl | he
+    · exact h.1
+    · split at he
+      · split at he
+        · exact ih h.2 e he
+        · cases he
+      · cases he
+
+theorem abstractCall_evOkC (cfg : DevCfg) (m : MacState) (c : AsyncCall) (h : c.allView viewOk = true) :
+    ∀ ev ∈ abstractCall cfg m c, evOkC ev = true := by
+  cases c with
+  | op o =>
+    intro ev hev
+    simp only [abstractCall, List.mem_singleton] at hev
+    subst hev
+    exact abstractOp_evOkC cfg o h
+  | listen script =>
+    intro ev hev
+    simp only [abstractCall, List.mem_map] at hev
+    obtain ⟨e, he, rfl⟩ := hev
+    exact listenEvents_evOk m _ _ (leadFrames_cs_all viewOk h) e he
+
+theorem abstractCalls_evOkC {σ} (g : Rng σ) (cfg : DevCfg) (ms : MacState × σ) (calls : List AsyncCall)
+    (h : ∀ c ∈ calls, c.allView viewOk = true) : ∀ ev ∈ abstractCalls g cfg ms calls, evOkC ev = true := by
+  induction calls generalizing ms with
+  | nil => intro ev hev; cases hev
+  | cons c rest ih =>
+    intro ev hev
+    simp only [abstractCalls, List.mem_append] at hev
+    rcases hev with hev | hev
+    · exact abstractCall_evOkC cfg ms.1 c (h c List.mem_cons_self) ev hev
+    · split at hev
+      · exact ih _ (fun c' hc' => h c' (List.mem_cons_of_mem _ hc')) ev hev
+      · cases hev
+
 end Model
